@@ -33,6 +33,12 @@ FLAVOURS = {
     # the client has a certificate but the server does not ask for it
     "rsa-clientcred-unrequested": dict(flavour="cert", cred="rsa",
                                        client_cred="c_rsa", req_cert=False),
+    # server name with upper-case letters, below TLS 1.3 as well
+    "rsa-sni-mixed-case": dict(flavour="cert", cred="rsa",
+                               ckw={"serverName": "Host.Example.TEST"}),
+    "rsa-sni-mixed-case-tls12": dict(
+        flavour="cert", cred="rsa", ckw={"serverName": "Host.Example.TEST"},
+        base=(("maxVersion", ("tls12", (3, 3), True)),)),
     "rsapss": dict(flavour="cert", cred="rsapss"),
     "ecdsa": dict(flavour="cert", cred="ecdsa"),
     "ecdsa384": dict(flavour="cert", cred="ecdsa384"),
